@@ -281,3 +281,183 @@ Example C09_empty_short_else_in_domain :
 Proof.
   eexists _, _. split; [vm_compute; reflexivity|]. split; [vm_compute; reflexivity|]. split; vm_compute; reflexivity.
 Qed.
+
+(* ------------------------------------------------------------------ the written text, lexed again *)
+From PV Require Spec.LuaLex Spec.SameCode Instances.HoldsC09 Model.Lexer Model.LexToken Proofs.FmtRelexMain.
+
+(* the token-level clause: "its output contains exactly the input's tokens and comments, in order, with identical
+   spelling (comments up to white space inside them); ... and the token count is unchanged".
+   For every byte string src of the reference dialect (Spec/LuaLex.v: spec_lex src = Some _), lts the tokens of the
+   lexer model (Model/Lexer.v; C07: they are the reference tokens), seen by the parser as map lex_token lts: if the
+   parser model reads them to the end and the tree lies in the writer's domain, then luafmt (every indent width w)
+   writes a text out that is again a byte string of the reference dialect, the lexer model reads it, and the tokens
+   it reads have the same code view (Spec/SameCode.v same_code, the predicate the monitor evaluates on the real
+   output): the same significant tokens, class and code, in the same order, and between them exactly the same
+   comments, in order, with the same bytes outside white space.  In particular no end-of-line comment swallows
+   code, no two tokens are glued, no block comment ends early, the token count is unchanged.
+   Proof (Proofs/FmtRelex*.v): a byte-level automaton for white-space / comment text; every re.sub of
+   LuaFormatterWriter._get_code_for_spaces is neutral for it in every state (fmt_run_arun); the automaton and the
+   reference lexer agree on trivia text (seg_arun, arun_seg); a code token is read back in front of the same first
+   byte / a blank / a line feed / nothing (sig_relex: Proofs/SpecLexChunk.v step_ctx and the per-kind lemmas of C01);
+   unless it is the first thing in the file a formatted run still begins with white space if the run did and is
+   empty only at the end of the file (fmt_hd); main induction relex_rend over the aligned chunk list of C09_aligned. *)
+Theorem C09_same_code : forall w src ss lts root e,
+  Forall byte src -> LuaLex.spec_lex src = Some ss -> Lexer.model_lex [src] = Ok lts ->
+  lua_parse (map LexToken.lex_token lts) = Ok (root, e) -> consumed (map LexToken.lex_token lts) e = true ->
+  writable (map LexToken.lex_token lts) root = true ->
+  exists out ss' lts',
+    writer_text (fmt_spaces w) (map LexToken.lex_token lts) (view root) = Ok out /\ Forall byte out /\
+    LuaLex.spec_lex out = Some ss' /\ Lexer.model_lex [out] = Ok lts' /\
+    SameCode.same_code (map LexToken.lex_token lts) (map LexToken.lex_token lts') = true.
+Proof. exact FmtRelexMain.luafmt_same_code. Qed.
+Print Assumptions C09_same_code.
+
+(* the same for the echo writer LuaASTEchoWriter (its text is the codes of the input's tokens, C09_whitespace_only) *)
+Theorem C09_echo_same_code : forall src ss lts root e,
+  Forall byte src -> LuaLex.spec_lex src = Some ss -> Lexer.model_lex [src] = Ok lts ->
+  lua_parse (map LexToken.lex_token lts) = Ok (root, e) -> consumed (map LexToken.lex_token lts) e = true ->
+  writable (map LexToken.lex_token lts) root = true ->
+  exists out ss' lts',
+    writer_text echo_spaces (map LexToken.lex_token lts) (view root) = Ok out /\ Forall byte out /\
+    LuaLex.spec_lex out = Some ss' /\ Lexer.model_lex [out] = Ok lts' /\
+    SameCode.same_code (map LexToken.lex_token lts) (map LexToken.lex_token lts') = true.
+Proof. exact FmtRelexMain.echo_same_code. Qed.
+Print Assumptions C09_echo_same_code.
+
+(* the whole instance predicate, for the model: inside the domain the observation (input tokens, tree, end position,
+   tokens of the text luafmt wrote) satisfies holds_C09 (Instances/HoldsC09.v: the predicate the extracted monitor
+   evaluates on the implementation's output) - parsed to the end, same code view, and the line-scoped constructs
+   keep their extent.  The last clause holds in the strongest form: for every code token, there is a newline token
+   between it and the previous code token in the written text exactly when there was one in the input (nl_before
+   is unchanged): the formatter never removes the last line break of a run, never adds one to a run without, and
+   line breaks inside block comments stay inside.  So a one-line `if (c) stmt [else stmt]` stays on one line and
+   what followed it on a later line stays on a later line. *)
+Theorem C09_luafmt_holds : forall w src ss lts root e valid,
+  Forall byte src -> LuaLex.spec_lex src = Some ss -> Lexer.model_lex [src] = Ok lts ->
+  lua_parse (map LexToken.lex_token lts) = Ok (root, e) -> consumed (map LexToken.lex_token lts) e = true ->
+  writable (map LexToken.lex_token lts) root = true ->
+  exists out ss' lts',
+    writer_text (fmt_spaces w) (map LexToken.lex_token lts) (view root) = Ok out /\ Forall byte out /\
+    LuaLex.spec_lex out = Some ss' /\ Lexer.model_lex [out] = Ok lts' /\
+    SameCode.nl_before (map LexToken.lex_token lts') = SameCode.nl_before (map LexToken.lex_token lts) /\
+    HoldsC09.holds_C09 (map LexToken.lex_token lts) root e valid (Some (map LexToken.lex_token lts')) = true.
+Proof. exact FmtRelexMain.luafmt_holds_C09. Qed.
+Print Assumptions C09_luafmt_holds.
+
+Theorem C09_echo_holds : forall src ss lts root e valid,
+  Forall byte src -> LuaLex.spec_lex src = Some ss -> Lexer.model_lex [src] = Ok lts ->
+  lua_parse (map LexToken.lex_token lts) = Ok (root, e) -> consumed (map LexToken.lex_token lts) e = true ->
+  writable (map LexToken.lex_token lts) root = true ->
+  exists out ss' lts',
+    writer_text echo_spaces (map LexToken.lex_token lts) (view root) = Ok out /\ Forall byte out /\
+    LuaLex.spec_lex out = Some ss' /\ Lexer.model_lex [out] = Ok lts' /\
+    SameCode.nl_before (map LexToken.lex_token lts') = SameCode.nl_before (map LexToken.lex_token lts) /\
+    HoldsC09.holds_C09 (map LexToken.lex_token lts) root e valid (Some (map LexToken.lex_token lts')) = true.
+Proof. exact FmtRelexMain.echo_holds_C09. Qed.
+Print Assumptions C09_echo_holds.
+
+(* run level: the formatter pipeline does not change what the trivia automaton sees - the comments of the run, in order,
+   each with its bytes outside white space, whether a line break occurs outside block comments, and whether the run
+   ends inside an end-of-line comment - whatever the position flags, indent width and depth *)
+Theorem C09_run_same_comments : forall cfg r V,
+  FmtRelexAuto.arun (V, FmtRelexAuto.AN) (fmt_run cfg r) = FmtRelexAuto.arun (V, FmtRelexAuto.AN) r.
+Proof. exact FmtRelexAuto.fmt_run_arun. Qed.
+Print Assumptions C09_run_same_comments.
+
+(* non-vacuity: a program with comments of all three kinds (`--`, `//`, `--[[ ]]` over two lines), adjacent tokens
+   `x=-1`, `a..b`, `f"s"`, a one-line if with else directly after a block comment and a tab in front of a comment
+   satisfies the hypotheses; luafmt (width 2) changes its text, the lexer model reads the new text and the code
+   view is the same *)
+Definition C09_relex_src : list Z := unBS "-- header
+x=-1 // c2
+y=a..b f""s""
+--[[ block
+  comment ]] if (x) y=2 else y=3
+z = {1,2}	-- tab
+"%bs.
+
+Example C09_same_code_nonvacuous :
+  exists ss lts root e,
+    Forall byte C09_relex_src /\ LuaLex.spec_lex C09_relex_src = Some ss /\ Lexer.model_lex [C09_relex_src] = Ok lts /\
+    lua_parse (map LexToken.lex_token lts) = Ok (root, e) /\ consumed (map LexToken.lex_token lts) e = true /\
+    writable (map LexToken.lex_token lts) root = true /\
+    exists out lts',
+      writer_text (fmt_spaces 2) (map LexToken.lex_token lts) (view root) = Ok out /\ zlist_eqb out C09_relex_src = false /\
+      Lexer.model_lex [out] = Ok lts' /\
+      HoldsC09.holds_C09 (map LexToken.lex_token lts) root e true (Some (map LexToken.lex_token lts')) = true.
+Proof.
+  eexists _, _, _, _. split.
+  { apply Forall_forall. intros x Hx. apply byteb_spec. revert x Hx. apply forallb_forall. vm_compute. reflexivity. }
+  split; [vm_compute; reflexivity|]. split; [vm_compute; reflexivity|]. split; [vm_compute; reflexivity|].
+  split; [vm_compute; reflexivity|]. split; [vm_compute; reflexivity|].
+  eexists _, _. split; [vm_compute; reflexivity|]. split; [vm_compute; reflexivity|]. split; vm_compute; reflexivity.
+Qed.
+
+(* ------------------------------------------------------------------ formatting formatted code changes nothing *)
+From PV Require Proofs.AstWriterDepth Proofs.FmtRelexIdem.
+
+(* program-level idempotence (the clause of C10 "formatting already-formatted code changes nothing", for the models):
+   for a source of the reference dialect inside the writer's domain and without the two constructs where the writer's
+   nesting counter is not the reference depth (Proofs/AstWriterDepth.v: no_short_else - a one-line `if (c) .. else ..`,
+   no_trailing_sep - a trailing table separator `{1,2,}`; see C10_indent_link), luafmt writes a text out; the lexer
+   model reads out; and WHENEVER the parser model reads those tokens to the end with a tree under the same
+   conditions, luafmt writes exactly out again.
+   Proof (Proofs/FmtRelexIdem.v): the layout relation rr of relex_rend says that every maximal white-space run of the
+   re-lexed token list is the text fmt_run cfg r that pass 1 wrote for a run, with cfg = (first in file, last in
+   file, width, reference depth of the next token - C10_indent_link for pass 1; 0 for the run that ends the file:
+   writer_aligned_final); the depth rules see the same code tokens in both lists (class and data of keywords and
+   symbols: plain_tokens), so pass 2 calls the pipeline with the same cfg (C10_indent_link for pass 2) on
+   fmt_run cfg r, and fmt_run cfg (fmt_run cfg r) = fmt_run cfg r (C10_run_idempotent); the code tokens are written
+   verbatim both times (C09_aligned) and the text of the re-lexed tokens is out (TokString.code is a fixed point of
+   lexing and re-spelling). *)
+Theorem C09_luafmt_idempotent : forall w src ss lts root e,
+  Forall byte src -> LuaLex.spec_lex src = Some ss -> Lexer.model_lex [src] = Ok lts ->
+  lua_parse (map LexToken.lex_token lts) = Ok (root, e) -> consumed (map LexToken.lex_token lts) e = true ->
+  writable (map LexToken.lex_token lts) root = true ->
+  AstWriterDepth.no_short_else root = true -> AstWriterDepth.no_trailing_sep root = true ->
+  exists out ss' lts',
+    writer_text (fmt_spaces w) (map LexToken.lex_token lts) (view root) = Ok out /\ Forall byte out /\
+    LuaLex.spec_lex out = Some ss' /\ Lexer.model_lex [out] = Ok lts' /\
+    forall root' e',
+      lua_parse (map LexToken.lex_token lts') = Ok (root', e') -> consumed (map LexToken.lex_token lts') e' = true ->
+      writable (map LexToken.lex_token lts') root' = true ->
+      AstWriterDepth.no_short_else root' = true -> AstWriterDepth.no_trailing_sep root' = true ->
+      writer_text (fmt_spaces w) (map LexToken.lex_token lts') (view root') = Ok out.
+Proof. exact FmtRelexIdem.luafmt_idempotent. Qed.
+Print Assumptions C09_luafmt_idempotent.
+
+(* non-vacuity: a badly indented function with a table constructor over two lines, an if block with two blank lines,
+   comments of all three kinds (the block comment over two lines, directly followed by code) and a tab: pass 1 changes
+   the text; the written text is lexed and parsed again, lies in the domain, and pass 2 reproduces it *)
+Definition C09_idem_src : list Z := unBS "-- header
+function f(a)
+    local t = {1,
+  2}	-- tab
+  if a then
+      x=-1 // c2
+
+
+   f""s""
+  end
+  --[[ block
+     comment ]] return a..b
+end
+"%bs.
+
+Example C09_luafmt_idempotent_nonvacuous :
+  exists ss lts root e out lts' root' e',
+    Forall byte C09_idem_src /\ LuaLex.spec_lex C09_idem_src = Some ss /\ Lexer.model_lex [C09_idem_src] = Ok lts /\
+    lua_parse (map LexToken.lex_token lts) = Ok (root, e) /\ consumed (map LexToken.lex_token lts) e = true /\
+    writable (map LexToken.lex_token lts) root = true /\
+    AstWriterDepth.no_short_else root = true /\ AstWriterDepth.no_trailing_sep root = true /\
+    writer_text (fmt_spaces 2) (map LexToken.lex_token lts) (view root) = Ok out /\ zlist_eqb out C09_idem_src = false /\
+    Lexer.model_lex [out] = Ok lts' /\
+    lua_parse (map LexToken.lex_token lts') = Ok (root', e') /\ consumed (map LexToken.lex_token lts') e' = true /\
+    writable (map LexToken.lex_token lts') root' = true /\
+    AstWriterDepth.no_short_else root' = true /\ AstWriterDepth.no_trailing_sep root' = true /\
+    writer_text (fmt_spaces 2) (map LexToken.lex_token lts') (view root') = Ok out.
+Proof.
+  eexists _, _, _, _, _, _, _, _. split.
+  { apply Forall_forall. intros x Hx. apply byteb_spec. revert x Hx. apply forallb_forall. vm_compute. reflexivity. }
+  repeat (split; [vm_compute; reflexivity|]). vm_compute. reflexivity.
+Qed.
